@@ -144,6 +144,59 @@ def check_universe_file():
         raise MachineryError("spec/routing/MCRoutingU.tla is not the universe of harness/routing.py (regenerate it)")
 
 
+REPO_PREFIX = "RepoTests."
+
+
+def repo_test_calls(ctx: Ctx, clauses, kind):
+    """code -> spec from the repository's own tests: tests/test_routing.py (+ the proxy-fix middleware tests) run under
+    harness/pytest_routing_plugin.py; every recorded MapAdapter.match call whose map falls inside the rule grammar
+    is judged by RoutingTrace.tla, the others are counted with the reason."""
+    import collections
+    import json
+
+    from ..tlc import MachineryError
+
+    calls, tail = rt.record_repo_tests(ctx.tmp)
+    if calls is None:
+        raise MachineryError("recording the repository's routing tests produced no trace file:\n" + tail)
+    skipped = collections.Counter()
+    groups, cases = {}, {}
+    for c in calls:
+        try:
+            cfg, line, q = rt.translate_call(c)
+        except rt.Skip as e:
+            skipped[str(e)] += 1
+            continue
+        k = json.dumps(cfg, sort_keys=True)
+        groups.setdefault(k, (cfg, []))[1].append((line, c, q))
+    lines, meta = [], {}
+    for t, (k, (cfg, items)) in enumerate(sorted(groups.items())):
+        tid = f"repo{t}"
+        cl = rt.enc_cfg(cfg, True)
+        cl["t"] = tid
+        lines.append(cl)
+        for i, (line, c, q) in enumerate(items):
+            line = dict(line, t=tid, i=i)
+            lines.append(line)
+            meta[(tid, i)] = (cfg, c, q)
+    judged = len(meta)
+    ctx.notes["repo_tests"] = {"calls_recorded": len(calls), "calls_judged": judged, "maps": len(groups),
+                               "skipped_outside_grammar": dict(skipped),
+                               "judged_c12_chains": sum(1 for (cfg, c, q) in meta.values() if cfg["c12"] and c["r"]["kind"] == "redirect"),
+                               "outcomes": dict(collections.Counter(c["r"]["kind"] for (_, c, _) in meta.values()))}
+    if judged < 100:
+        raise MachineryError(f"only {judged} of {len(calls)} recorded routing-test calls could be judged ({dict(skipped)})\n{tail[-300:]}")
+    ctx.count(judged)
+    for r in ctx.judge(AREA, "RoutingTrace", lines, batch=2500):
+        if r["clause"] not in clauses:
+            continue
+        cfg, c, q = meta[(r["t"], r["i"])]
+        case = {"cfg": cfg, "path": c["path"], "method": c["method"], "q": q,
+                "rules_text": [rt.rule_string(x) for x in cfg["rules"]], "observed": c["r"]["kind"],
+                "observed_rule": c["r"]["rule"], "test": c["test"]}
+        ctx.violation(f"{REPO_PREFIX}{r['clause']}:{c['r']['kind']}", r["clause"], case, kind=kind)
+
+
 def run(ctx: Ctx):
     from .. import tlc
     check_universe_file()
@@ -176,6 +229,7 @@ def run(ctx: Ctx):
     groups = model_groups(ctx) + build_groups(ctx)
     ctx.notes["maps"] = len(groups)
     judge_groups(ctx, groups)
+    repo_test_calls(ctx, CLAUSES, "c03")
 
 
 def replay(ctx: Ctx, data):
